@@ -78,7 +78,7 @@ def main():
                 mf = os.path.join(sd, d, 'meta.json')
                 if os.path.exists(pf) and os.path.exists(mf) and a.only in d:
                     meta = json.load(open(mf))
-                    jobs.append(('seeded', pf, {'props': meta.get('caught_by', []), 'rule': meta.get('caught_rule', ''),
+                    jobs.append(('seeded', pf, {'props': meta.get('caught_by', []), 'rule': '',
                                                 'expected_miss': not meta.get('caught_by')}))
     if not a.mutants_only:
         nd = os.path.join(VERIF, 'selftest', 'neutral')
